@@ -76,8 +76,18 @@ def classify(prog, m):
     else:
         for e in m["exp"]:
             key = "mono:%s.%s" % (field_kind(prog, tn, e["k"]), e["t"])
-            out.append((key, "claim %s.%s = %s made on the prefix is not kept when byte %s arrives" % (e["k"] or "<view>", e["t"], e["v"], m.get("b"))))
+            out.append((key, "claim %s.%s = %s made on the one-byte-shorter prefix is not kept" % (e["k"] or "<view>", e["t"], e["v"])))
     return out
+
+
+def buffer_at(lines, tid, ev, cache):
+    """The buffer the ev-th arr event of trace tid observed (replays the depth-first walk)."""
+    if tid not in cache:
+        cache[tid] = json.loads(lines[tid - 1])["ev"]
+    cur = []
+    for e in cache[tid][:ev]:
+        cur = [] if e["n"] < 0 else cur[: e["n"]] + [e["b"]]
+    return cur
 
 
 def check_program(chk, scratch, prog, tier, budget, san=False):
@@ -99,13 +109,15 @@ def check_program(chk, scratch, prog, tier, budget, san=False):
     shards = [lines[i::nshard] for i in range(nshard)]
     results = run_parallel([(lambda sh=sh, i=i: view_run.validate_traces(scratch, prog, sh, "%s_%d" % (prog.name, i))) for i, sh in enumerate(shards)], nproc=nshard)
     nev = 0
-    for res, mism, summary in results:
+    for (res, mism, summary), sh in zip(results, shards):
         chk.add_tlc(res, part="ViewTrace")
         nev += summary["events"]
+        cache = {}
         for m in mism:
+            buf = buffer_at(sh, m["tid"], m["ev"], cache)
             for key, desc in classify(prog, m):
-                chk.violation(key, "%s (struct %s params %s, buffer = %s + byte %s)" % (desc, m["t"], m["ps"], m["prev"][: max(0, m.get("n", 0))], m.get("b")),
-                              {"emb": text, "struct": m["t"], "params": m["ps"], "prefix": m["prev"][: max(0, m.get("n", 0))], "byte": m.get("b"), "mismatch": m})
+                chk.violation(key, "%s (struct %s params %s, buffer = %s)" % (desc, m["t"], m["ps"], buf),
+                              {"emb": text, "struct": m["t"], "params": m["ps"], "buffer": buf, "mismatch": m})
         if summary["bad"] and not mism:
             raise MachineryError("mismatches counted but not printed")
     return nev
@@ -117,6 +129,10 @@ def run(chk, only=None):
     budget = 1500 if tier == "quick" else 20000
     total = 0
     with Scratch("c01") as sc:
+        gen, gres = view_run.generated_programs(sc, 14 if tier == "quick" else 300, chk.seed + 1, 5 if tier == "quick" else 6, 2)
+        chk.add_tlc(gres, part="ProgGen")
+        chk.extra["generated_programs"] = len(gen)
+        progs = progs + gen
         def one(p):
             return check_program(chk, sc, p, tier, budget)
         # compile (python, in-process) is serial inside check_program; builds/TLC run in threads
@@ -129,5 +145,6 @@ def run(chk, only=None):
                 "for every struct and parameter sample of each catalogue/generated program; each is one Arrive event whose recorded "
                 "observation vector TLC compares with View!Obs and checks PrefixMonotone against its parent prefix")
     chk.sample({"program": progs[0].name, "emb": view_prog.render(progs[0])})
+    chk.sample({"program": progs[-1].name, "emb": view_prog.render(progs[-1])})
     chk.assumptions += ["integers in view programs < 2^30 (field widths <= 24 bits); wide scalars are C02's job",
                         "g++ -O1 build of the driver; sanitizer build is C04's job"]
